@@ -286,10 +286,15 @@ func c01Body(p c01Params) func() {
 			if len(w.lists) != 1 || int(*l.cap) != p.Slots || int(l.bufferRegionOffsetInShm)+int(*l.cap)*int(slotSizeOf(l)) != len(w.mem) {
 				vrt.Failf("setup", "unexpected layout: %d classes, %d slots, region ends at %d of %d", len(w.lists), *l.cap, int(l.bufferRegionOffsetInShm)+int(*l.cap)*int(slotSizeOf(l)), len(w.mem))
 			}
-		} else if p.Level == "manager" {
-			// two size classes: 3 slots of 8 bytes and 2 slots of 16 bytes (260 bytes of "shared memory")
+		} else if p.Level == "manager" || p.Level == "manager3" {
+			// two size classes: 3 slots of 8 bytes and 2 slots of 16 bytes (260 bytes of "shared memory");
+			// level "manager3": 3 slots of each (two of the large class allocatable at a time)
 			w.mem = make([]byte, 260)
 			pairs := []*SizePercentPair{{Size: 8, Percent: 50}, {Size: 16, Percent: 50}}
+			if p.Level == "manager3" {
+				w.mem = make([]byte, 280)
+				pairs = []*SizePercentPair{{Size: 8, Percent: 45}, {Size: 16, Percent: 55}}
+			}
 			if w.mgrs[0], err = createBufferManager(pairs, "", w.mem, 0); err != nil {
 				vrt.Failf("setup", "createBufferManager: %v", err)
 			}
@@ -297,7 +302,11 @@ func c01Body(p c01Params) func() {
 				vrt.Failf("setup", "mappingBufferManager: %v", err)
 			}
 			w.lists, w.mlists = w.mgrs[0].lists, w.mgrs[1].lists
-			if len(w.lists) != 2 || *w.lists[0].cap != 3 || *w.lists[1].cap != 2 {
+			want1 := uint32(2)
+			if p.Level == "manager3" {
+				want1 = 3
+			}
+			if len(w.lists) != 2 || *w.lists[0].cap != 3 || *w.lists[1].cap != want1 {
 				vrt.Failf("setup", "unexpected layout: %d classes", len(w.lists))
 			}
 		} else {
@@ -514,6 +523,10 @@ func c01Scenarios(thorough bool) (out []c01Params) {
 		// chains recycled through their shared-memory links against concurrent allocation of both kinds
 		for _, pr := range [][2]string{{"mc", "mc"}, {"mc", "ma"}, {"ac", "bo"}, {"mc", "bb"}} {
 			addM(pr[0], pr[1])
+		}
+		// three slots in the large class as well (a multi-slice allocation can take two large slices and then a small one)
+		for _, progs := range [][]string{{"m"}, {"m", "m"}, {"mc", "a"}, {"m", "b"}, {"mo", "m"}, {"bm", "o"}} {
+			out = append(out, c01Params{Slots: 6, Programs: progs, Retry: 3, Level: "manager3"})
 		}
 		// exact-fit memory (the last slot ends where the mapping ends): the tail moves, every slot gets allocated once,
 		// chains that contain the last physical slot are recycled by their head - from either view
